@@ -242,6 +242,27 @@ def r17_5(chk):
                        expected='the derivative of the internal-force integrand of amplitude (class;dof) %s with respect to amplitude %s equals the sum of the tangent integrands' % (r['row'], r['col']),
                        got='equal' if r['ok'] else ('differs' if r['ok'] is False else 'not decidable'), detail=r['detail'][:900],
                        sample='%s: %s == k0L + k0L^T + kLL + kG (integrand level, %s)' % (base, construct, 'identically zero' if r['zero'] else 'non-trivial') if n % 60 == 1 else None)
+    # R17.7 the isotropic short-cut modules: k0L and kLL integrands == the general module's under the isotropic laminate
+    from . import shelljac
+    ni = 0
+    for model, ent in sorted(db.items()):
+        if not model.startswith('iso_') or ent.get('non-linear static') is not True:
+            continue
+        irel = nl_module_file(ent.get('non-linear'))
+        grel = nl_module_file(db.get(model[4:], {}).get('non-linear'))
+        if irel is None or grel is None:
+            chk.ob('R17.7', False, MODELDB, 'db', 'non-linear modules of %s and its general sibling' % model, got=(ent.get('non-linear'), db.get(model[4:], {}).get('non-linear')))
+            continue
+        res, problems = shelljac.iso_vs_general(pyxast.parse(repo_path(irel), REPO), pyxast.parse(repo_path(grel), REPO))
+        chk.ob('R17.7', not problems, irel, 'calc_k0L/calc_kLL', 'writer of (row, col) and writer of the values walk the same structure', got=problems[:3])
+        for r in res:
+            ni += 1
+            construct = '%s entry %s' % (r['matrix'], r['key'])
+            chk.ob('R17.7', r['ok'] is True, irel, r['matrix'], construct, line=r['line'],
+                   expected='the general module (%s) evaluated for the isotropic laminate' % os.path.basename(grel),
+                   got='equal' if r['ok'] else ('absent from the short-cut module' if r['missing'] else 'differs' if r['ok'] is False else 'not decidable'), detail=r['detail'][:600],
+                   sample='%s: %s == general under the isotropic substitution' % (os.path.basename(irel), construct) if ni % 30 == 1 else None)
+    chk.floor('R17.7 entries', ni, 80)
     chk.floor('R17.5 modules', len(tasks), 8)
     chk.floor('R17.5 amplitude pairs', n, 1000)
     chk.assumptions = list(getattr(chk, 'assumptions', [])) + [
